@@ -34,7 +34,7 @@ def gen_cases(tier, seed):
         n = len(lines)
         cuts = list(range(1, n)) if thorough and n <= 24 else sorted(r.sample(range(1, n), min(8, n - 1)))
         for c in cuts:
-            shape = r.choice(["one", "two", "nested2", "nested3", "tail", "head", "twice", "subdir", "dotdot", "dotslash", "dotfile", "absolute"])
+            shape = r.choice(["one", "two", "nested2", "nested3", "tail", "head", "twice", "subdir", "dotdot", "dotslash", "dotfile", "absolute", "substring-names", "end-in-include"])
             yield {"id": "split/%d/%d/%s" % (k, c, shape), "lines": lines, "cut": c, "shape": shape}
     for sh in ("self", "cycle2", "cycle3", "missing", "missing-nested"):
         yield {"id": "bad/" + sh, "shape": sh, "lines": None, "cut": 0}
@@ -54,6 +54,18 @@ def layout(lines, cut, shape, r, root=None):
         snip = r.choice(SNIPPETS)
         files = {"main.asm": lines[:a] + [" INCLUDE snip.asm\n"] + lines[a:b] + [" INCLUDE snip.asm\n"] + lines[b:], "snip.asm": snip}
         ref = lines[:a] + snip + lines[a:b] + snip + lines[b:]
+    elif shape == "substring-names":
+        files = _layout(lines, cut, "nested3", r)
+        ren = {"part1.asm": r.choice(["inc/defs.asm", "audio.asm", "xdefs.asm"]), "part2.asm": "defs.asm" if True else "", "part3.asm": "s.asm"}
+        if ren["part1.asm"] == "audio.asm":
+            ren["part2.asm"] = "io.asm"
+            ren["part3.asm"] = "o.asm"
+        files = {ren.get(k, k): [l.replace("part1.asm", ren["part1.asm"]).replace("part2.asm", ren["part2.asm"]).replace("part3.asm", ren["part3.asm"]) for l in v] for k, v in files.items()}
+    elif shape == "end-in-include":
+        n = len(lines)
+        a, b = cut, min(n, cut + max(1, (n - cut) // 2))
+        files = {"main.asm": lines[:a] + [" INCLUDE part1.asm\n"] + lines[b:], "part1.asm": lines[a:b] + [" END\n"]}
+        ref = lines[:a] + lines[a:b] + [" END\n"] + lines[b:]
     elif shape in ("subdir", "dotdot", "dotslash", "dotfile", "absolute"):
         newname = {"subdir": "lib/part1.asm", "dotdot": "../part1.asm", "dotslash": "./part1.asm", "dotfile": ".part1.asm",
                    "absolute": os.path.join(root, "abs", "part1.asm")}[shape]
